@@ -252,7 +252,12 @@ func (c *vT) build() {
 	if pre := vParamDef("pre", 0); pre > 0 {
 		// an unrelated, diverse trie is built (and dropped) first: what a build produces must not
 		// depend on what was built before it
-		_, err := NewSlimTrie(encode.U16{}, vSweep(pre), nil)
+		var err error
+		if po := vParamDef("preopt", -1); po >= 0 {
+			_, err = NewSlimTrie(encode.U16{}, vSweep(pre), nil, vOptCase(po))
+		} else {
+			_, err = NewSlimTrie(encode.U16{}, vSweep(pre), nil)
+		}
 		vAssert(err == nil, "build-ok")
 	}
 	c.st, c.err = NewSlimTrie(c.encoder(), c.keys, c.values(), opt)
@@ -659,6 +664,7 @@ func (c *vT) checkC04(api int, ls, le int, stop int) {
 	switch api {
 	case 0:
 		nxt := c.st.NewIter(start, inclS, withValue)
+		var first []string
 		for t := 0; t < n+1; t++ {
 			k, v := nxt()
 			if k == nil {
@@ -666,6 +672,7 @@ func (c *vT) checkC04(api int, ls, le int, stop int) {
 				break
 			}
 			checkYield(count, k, v)
+			first = append(first, string(k))
 			count++
 		}
 		vAssert(count <= n, "C04.no-extra")
@@ -674,6 +681,32 @@ func (c *vT) checkC04(api int, ls, le int, stop int) {
 		k2, v2 := nxt()
 		k3, v3 := nxt()
 		vAssert(k2 == nil && v2 == nil && k3 == nil && v3 == nil, "C04.exhausted")
+		if vParamDef("again", 0) == 1 {
+			// scans started after an iterator was polled past its end still yield exactly the
+			// entries in range: the same scan again, advanced in turn with a scan over the whole trie
+			a := c.st.NewIter(start, inclS, withValue)
+			b := c.st.NewIter("", true, false)
+			okA, okB := true, true
+			nb := 0
+			for t := 0; t < n+1; t++ {
+				ka, _ := a()
+				kb, _ := b()
+				if t < len(first) {
+					okA = vAnd(okA, ka != nil && vStrEq(string(ka), first[t]))
+				} else {
+					okA = vAnd(okA, ka == nil)
+				}
+				if kb != nil {
+					nb++
+				}
+			}
+			for j := 0; j < n; j++ {
+				nb -= vB2I(c.ret[j])
+			}
+			okB = nb == 0
+			vAssert(okA, "C04.again.same")
+			vAssert(okB, "C04.again.whole")
+		}
 	case 1:
 		c.st.ScanFrom(start, inclS, withValue, func(k, v []byte) bool {
 			checkYield(count, k, v)
